@@ -198,8 +198,11 @@ def _state_violations(rep, bad, what):
             if obs and obs[0]["ok"]:
                 got = {(_txt(e["n"]), _txt(e["b"])) for e in obs[0]["fn"]}
                 failing = {n for n, _ in orig ^ got}
-            else:   # the printout could not be evaluated at all
-                failing = {n for n, _ in orig if _name_class(n) != "plain"} or {n for n, _ in orig}
+            else:
+                # the printout could not be evaluated at all (a syntax error
+                # hides every definition in it): a name that is a reserved
+                # word, printed bare, is a sure syntax error
+                failing = {n for n, _ in orig if _name_class(n) == "reserved-word"} or {n for n, _ in orig}
             key["names"] = "+".join(sorted({_name_class(n) for n in failing}))
             key["function_keyword"] = bool(obs) and any(
                 ln.startswith("function ") for ln in obs[0].get("txt", "").split("\n"))
